@@ -10,7 +10,8 @@ CONSTANTS NodeSet,     \* set of integer node vectors
           NKS,         \* values of nk
           INVS,        \* values of 1/dk as <<p, q>> (units of LatA)
           LatA,        \* integer reciprocal lattice (rows)
-          Factors      \* refinement factors checked on every finished path
+          Factors,     \* refinement factors checked on every finished path
+          FullProduct  \* TRUE: default labels with every nk specification; FALSE: default labels only with an integer nk
 
 NodeSetTiny == {<<0, 0, 0>>, <<1, 0, 2>>, <<-1, 1, 1>>}
 NodeSetQuick == {<<0, 0, 0>>, <<1, 0, 0>>, <<0, 1, 1>>, <<1, 2, -1>>}
@@ -40,6 +41,7 @@ Init == /\ nodes \in NodeLists
                   ELSE LET rp == RealPositions(nodes) IN [m \in 1..Len(rp) |-> NodeName(nodes[rp[m]])]
         /\ spec \in Specs(NumSegments(nodes))
         /\ NodesOK(nodes) /\ NkOK(nodes, spec)
+        /\ (FullProduct \/ (deflab => spec.mode = "int"))
         /\ i = 1 /\ st = ZipInit /\ pc = "zip"
 
 NL == NodeLabels(nodes, labs)
